@@ -18,6 +18,10 @@ LAX_NAMES = ["lax_" + n for n in LAXABLE]
 
 def impl(case):
     """C02's adapter, plus: a lax validator is applied a second time and followed by its strict form."""
+    if case["op"] == "reparse":
+        return impl_reparse(case)
+    if case["op"] == "copy":
+        return impl_copy(case)
     out = c02.impl(case)
     if case["op"] == "validator" and case["name"].startswith("lax_") and "ok" in out:
         from utype.parser.rule import Constraints
@@ -33,6 +37,852 @@ def impl(case):
         out["again"] = run(case["name"])
         out["strict"] = run(case["name"][4:])
     return out
+
+
+# ------------------------------------------------------------------------------------------------
+# op "reparse": whole-type idempotence on the real code — logical combinations (| ^ & ~ of rules and builtins), nested
+# generics (List/Set/Tuple/Dict/Optional of rules) and data classes (Schema and DataClass: defaults of every container
+# kind incl. nested tuples/sets/dicts, default factories, aliases, no_output, nested data classes), each under several
+# Options.  The result of the first parse is parsed again, as the instance it is and (data classes) as a plain dict of
+# its data; both must succeed and be equal to the first result including the container TYPE at every level.
+# op "copy": utils.functional.copy_value against the T1-generated model (container class and == at every level).
+# ------------------------------------------------------------------------------------------------
+
+def enc2(v):
+    """pyval.encode plus dicts ({"m": [[k, v], ...]} in insertion order) and dict views"""
+    if isinstance(v, dict) and type(v) is dict:
+        return {"m": [[enc2(k), enc2(x)] for k, x in v.items()]}
+    if type(v) is list:
+        return {"l": [enc2(x) for x in v]}
+    if type(v) is tuple:
+        return {"t": [enc2(x) for x in v]}
+    if type(v) in (set, frozenset):
+        items = sorted((enc2(x) for x in v), key=lambda x: json.dumps(x, sort_keys=True))
+        return {"S" if type(v) is set else "F": items}
+    if type(v) is type({}.values()):
+        return {"V": [enc2(x) for x in v]}
+    if type(v) is type({}.keys()):
+        return {"K": [enc2(x) for x in v]}
+    return encode(v)
+
+
+def dec2(j):
+    if isinstance(j, dict):
+        if "m" in j:
+            return {dec2(k): dec2(x) for k, x in j["m"]}
+        if "l" in j:
+            return [dec2(x) for x in j["l"]]
+        if "t" in j:
+            return tuple(dec2(x) for x in j["t"])
+        if "S" in j:
+            return {dec2(x) for x in j["S"]}
+        if "F" in j:
+            return frozenset(dec2(x) for x in j["F"])
+        if "V" in j:
+            return {i: dec2(x) for i, x in enumerate(j["V"])}.values()
+        if "K" in j:
+            return {dec2(x): None for x in j["K"]}.keys()
+    return decode(j)
+
+
+def deep(v):
+    """type-exact structural description of a result (for comparison and for the replay)"""
+    cls = type(v)
+    if hasattr(cls, "__parser__"):
+        data = dict(v) if isinstance(v, dict) else {k: x for k, x in vars(v).items() if not k.startswith("__")}
+        return {"K": cls.__name__, "m": sorted(([deep(k), deep(x)] for k, x in data.items()), key=lambda p: json.dumps(p[0], sort_keys=True))}
+    if isinstance(v, dict):
+        return {"D": cls.__name__, "m": sorted(([deep(k), deep(x)] for k, x in v.items()), key=lambda p: json.dumps(p[0], sort_keys=True))}
+    if cls in (list, tuple):
+        return {"l" if cls is list else "t": [deep(x) for x in v]}
+    if cls in (set, frozenset):
+        return {"S" if cls is set else "F": sorted((deep(x) for x in v), key=lambda x: json.dumps(x, sort_keys=True))}
+    e = encode(v)
+    if isinstance(e, dict) and "o" in e:
+        return {"o": cls.__name__, "repr": repr(v)[:80]}
+    return e
+
+
+def deep_equal(a, b) -> bool:
+    """equal as Python values (==, NaN = NaN) with the same container class at every level"""
+    ca, cb = type(a), type(b)
+    if hasattr(ca, "__parser__") or hasattr(cb, "__parser__"):
+        if ca is not cb:
+            return False
+        da = dict(a) if isinstance(a, dict) else {k: x for k, x in vars(a).items() if not k.startswith("__")}
+        db = dict(b) if isinstance(b, dict) else {k: x for k, x in vars(b).items() if not k.startswith("__")}
+        return deep_equal(da, db)
+    if isinstance(a, dict) or isinstance(b, dict):
+        if ca is not cb or len(a) != len(b):
+            return False
+        for k in a:
+            if k not in b or not deep_equal(a[k], b[k]):
+                return False
+        return True
+    if ca in (list, tuple) or cb in (list, tuple):
+        return ca is cb and len(a) == len(b) and all(deep_equal(x, y) for x, y in zip(a, b))
+    if ca in (set, frozenset) or cb in (set, frozenset):
+        try:
+            return ca is cb and a == b
+        except Exception:
+            return False
+    try:
+        return bool(a == b) or bool(a != a and b != b)
+    except Exception:
+        return False
+
+
+FACTORIES = {"list": list, "dict": dict, "set": set, "tuple": tuple, "pair": lambda: (0, 1), "nested": lambda: [("a", 1)],
+             "frozenset": frozenset}
+
+
+def build_ann(t, env):
+    """type descriptor -> annotation (typing generics / utype types / data classes)"""
+    import typing
+    from utype.parser.rule import LogicalType, Rule
+    if "b" in t:
+        return {"Any": typing.Any, "NoneType": type(None), "dict": dict}.get(t["b"]) or c02.CLS_BY_NAME[t["b"]]
+    if "r" in t:
+        r = t["r"]
+        return Rule.annotate(c02.CLS_BY_NAME[r["origin"]], constraints={k: decode(b) for k, b in r["cs"]})
+    if "dc" in t:
+        return env[t["dc"]]
+    if "g" in t:
+        args = [build_ann(a, env) for a in t["args"]]
+        g = t["g"]
+        if g == "List":
+            return typing.List[args[0]]
+        if g == "Set":
+            return typing.Set[args[0]]
+        if g == "FrozenSet":
+            return typing.FrozenSet[args[0]]
+        if g == "TupleE":
+            return typing.Tuple[args[0], ...]
+        if g == "Tuple":
+            return typing.Tuple[tuple(args)]
+        if g == "Dict":
+            return typing.Dict[args[0], args[1]]
+        if g == "Optional":
+            return typing.Optional[args[0]]
+        if g == "Union":
+            return typing.Union[tuple(args)]
+        raise ValueError(g)
+    if "c" in t:
+        args = [resolve_type(build_ann(a, env)) for a in t["args"]]
+        op = t["c"]
+        if t.get("via") == "call" or not isinstance(args[0], (LogicalType,)) and not hasattr(args[0], "__parser__"):
+            f = {"|": LogicalType.any_of, "^": LogicalType.one_of, "&": LogicalType.all_of}.get(op)
+            return LogicalType.not_of(args[0]) if op == "~" else f(*args)
+        if op == "~":
+            return ~args[0]
+        acc = args[0]
+        for a in args[1:]:
+            acc = (acc | a) if op == "|" else (acc ^ a) if op == "^" else (acc & a)
+        return acc
+    raise ValueError(t)
+
+
+def resolve_type(ann):
+    from utype.parser.rule import Rule
+    r = Rule.parse_annotation(ann)
+    return r if r is not None else ann
+
+
+def build_classes(case):
+    import utype
+    env = []
+    for i, k in enumerate(case.get("classes", [])):
+        anns, attrs = {}, {"__module__": __name__}
+        for f in k["fields"]:
+            anns[f["name"]] = build_ann(f["type"], env)
+            kw = {}
+            if "default" in f:
+                kw["default"] = dec2(f["default"])
+            if f.get("factory"):
+                kw["default_factory"] = FACTORIES[f["factory"]]
+            for key in ("alias", "alias_from", "no_output", "no_input", "required", "case_insensitive", "on_error", "defer_default"):
+                if f.get(key) is not None:
+                    kw[key] = f[key]
+            if list(kw) == ["default"] and not f.get("as_field"):
+                attrs[f["name"]] = kw["default"]          # plain class-level default
+            elif kw:
+                attrs[f["name"]] = utype.Field(**kw)
+        attrs["__annotations__"] = anns
+        if k.get("options"):
+            attrs["__options__"] = utype.Options(**k["options"])
+        base = utype.Schema if k["kind"] == "Schema" else utype.DataClass
+        env.append(type(k["name"], (base,), attrs))
+    return env
+
+
+def _data_of(inst):
+    return dict(inst) if isinstance(inst, dict) else {k: x for k, x in vars(inst).items() if not k.startswith("__")}
+
+
+class _Reparse:
+    """the re-parse experiment on the real code, plus the location of the sub-type at which a result stops being a fixed
+    point and — for the logical combinators — what their *documented algorithm* predicts from the real parsers of the arms"""
+
+    def __init__(self, case):
+        import utype
+        self.u = utype
+        self.case = case
+        self.env = build_classes(case)
+        self.T = resolve_type(build_ann(case["type"], self.env))
+        self.opts = utype.Options(**case["options"]) if case.get("options") else None
+        self.is_dc = hasattr(self.T, "__parser__")
+
+    def run(self, f):
+        from utype.utils.exceptions import ParseError
+        try:
+            return ("ok", f())
+        except ParseError as e:
+            return ("perr", type(e).__name__)
+        except RecursionError:
+            return ("escape", "RecursionError")
+        except Exception as e:
+            return ("escape", type(e).__name__)
+
+    def top(self, x):
+        from collections.abc import Mapping
+        if self.is_dc and self.case.get("entry") == "from" and (isinstance(x, Mapping) or not isinstance(x, self.T)):
+            return self.T.__from__(x, options=self.opts)    # (an instance of a non-dict DataClass is not *data* for __from__)
+        return self.u.type_transform(x, self.T, options=self.opts)
+
+    def sub(self, t, x, eff):
+        T = resolve_type(build_ann(t, self.env))
+        return self.run(lambda: self.u.type_transform(x, T, options=eff))
+
+    def keeps(self, t, x, eff):
+        k, r = self.sub(t, x, eff)
+        return k == "ok" and deep_equal(x, r) and deep_equal(r, x)
+
+    # -- documented algorithms of the combinators over the real arm parsers (rule.py logical_parse) ------------
+    def predict(self, t, x, eff):
+        u = self.u
+        base = eff or u.Options()
+        op = "|" if t.get("g") in ("Optional", "Union") else t["c"]
+        arms = list(t["args"]) + ([{"b": "NoneType"}] if t.get("g") == "Optional" else [])
+        if op == "&":
+            cur = x
+            for a in arms:
+                k, cur = self.sub(a, cur, eff)
+                if k != "ok":
+                    return ("fail", None)
+            return ("ok", cur)
+        if op == "~":
+            k, _ = self.sub(arms[0], x, eff)
+            return ("fail", None) if k == "ok" else ("ok", x)
+        if op == "^":
+            got = [r for k, r in (self.sub(a, x, eff) for a in arms) if k == "ok"]
+            return ("ok", got[0]) if len(got) == 1 else ("fail", None)
+        # "|": exact type, strict, no-loss, lenient
+        built = [resolve_type(build_ann(a, self.env)) for a in arms]
+        for T in built:
+            if type(x) == T:
+                return ("ok", x)
+        stages = []
+        if not base.no_data_loss or not base.no_explicit_cast:
+            stages.append(base & u.Options(no_data_loss=True, no_explicit_cast=True))
+        if not base.no_data_loss and not base.no_explicit_cast:
+            stages.append(base & u.Options(no_data_loss=True))
+        stages.append(base)
+        for st in stages:
+            for T in built:
+                k, r = self.run(lambda: u.type_transform(x, T, options=st))
+                if k == "ok":
+                    return ("ok", r)
+        return ("fail", None)
+
+    def locate(self, t, r, eff, top=False):
+        """the innermost sub-type / sub-value at which `r` is not a fixed point; None if it is one"""
+        if top:
+            k, r2 = self.run(lambda: self.top(r))
+        else:
+            k, r2 = self.sub(t, r, eff)
+        if k == "ok" and deep_equal(r, r2) and deep_equal(r2, r):
+            return None
+        here = {"node": t, "value": deep(r), "observed": {k: deep(r2) if k == "ok" else r2}}
+        if "dc" in t:
+            K = self.env[t["dc"]]
+            if type(r) is K:
+                inner = self.opts if (top and self.case.get("entry") == "from" and self.opts is not None) else K.__options__
+                desc = self.case["classes"][t["dc"]]
+                data = _data_of(r)
+                missing = [f.attname for f in K.__parser__.fields.values()
+                           if f.field.no_output and f.field.required is True and f.name not in data and f.attname not in data]
+                if missing and k != "ok":
+                    return dict(here, kind="dc", dropped_required_no_output=missing)
+                for name, f in K.__parser__.fields.items():
+                    fd = next((x for x in desc["fields"] if x["name"] == f.attname), None)
+                    if fd is None:
+                        continue
+                    for key in (f.name, f.attname):
+                        if key in data:
+                            c = self.locate(fd["type"], data[key], inner)
+                            tolerant = (f.field.on_error or getattr(inner, "invalid_values", None)) in ("preserve",)
+                            if c and not (tolerant and "ok" not in c.get("observed", {})):
+                                # (a value the field keeps although its type rejects it — on_error / invalid_values
+                                # 'preserve' — is rejected and kept again: a fixed point of the field; with 'exclude' the
+                                # field is dropped or defaulted instead, so the field type's behaviour is the cause)
+                                return c
+                            break
+                return dict(here, kind="dc", dropped_required_no_output=missing)
+            return dict(here, kind="dc-foreign")
+        if "g" in t and t["g"] in ("List", "Set", "FrozenSet", "TupleE", "Tuple", "Dict"):
+            want = {"List": list, "Set": set, "FrozenSet": frozenset, "TupleE": tuple, "Tuple": tuple, "Dict": dict}[t["g"]]
+            if type(r) is want:
+                if t["g"] == "Dict":
+                    pairs = [(t["args"][0], k_) for k_ in r] + [(t["args"][1], v_) for v_ in r.values()]
+                elif t["g"] == "Tuple":
+                    pairs = list(zip(t["args"], r))
+                else:
+                    pairs = [(t["args"][0], x) for x in r]
+                for st, sv in pairs:
+                    c = self.locate(st, sv, eff)
+                    if c:
+                        return c
+            return dict(here, kind="generic")
+        if "c" in t or t.get("g") in ("Optional", "Union"):
+            arms = list(t["args"]) + ([{"b": "NoneType"}] if t.get("g") == "Optional" else [])
+            op = "|" if "g" in t else t["c"]
+            keepers = [i for i, a in enumerate(arms) if self.keeps(a, r, eff)]
+            pk, pv = self.predict(t, r, eff)
+            agrees = (pk == "fail" and k != "ok") or (pk == "ok" and k == "ok" and deep_equal(pv, r2) and deep_equal(r2, pv))
+            me = dict(here, kind="comb", op=op, keepers=keepers, last_arm_keeps=(len(arms) - 1) in keepers,
+                      algorithm_agrees=bool(agrees))
+            if not keepers:
+                # no arm hands `r` back: `r` came out of an arm that is itself not idempotent on it — look inside the arms,
+                # preferring a location that its own algorithm explains
+                deeper = [c for c in (self.locate(a, r, eff) for a in arms) if c]
+                for c in deeper:
+                    if c.get("kind") == "comb" and c.get("keepers") and c.get("algorithm_agrees"):
+                        return c
+            return me
+        return dict(here, kind="leaf")
+
+
+def impl_reparse(case):
+    import warnings
+    warnings.simplefilter("ignore")
+    import utype
+    try:
+        R = _Reparse(case)
+    except Exception as e:
+        return {"decl": type(e).__name__}
+    out = {"decl": "ok"}
+    k1, first = R.run(lambda: R.top(dec2(case["input"])))
+    out["first"] = {k1: deep(first) if k1 == "ok" else first}
+    if k1 != "ok":
+        return out
+    # conformance of the declared defaults with their field types (a precondition on the declaration, measured on
+    # the *declared* default, not on what the parse copied out of it)
+    bad = []
+    for K in R.env:
+        for name, f in K.__parser__.fields.items():
+            d = f.field.default
+            if f.field.default_factory:
+                try:
+                    d = f.field.default_factory()
+                except Exception:
+                    continue
+            elif utype.unprovided(d):
+                continue
+            if f.type is None:
+                continue
+            # the options the fields of K are parsed under: K's own, except at the top level of a `__from__` call
+            # with explicit runtime options (these replace the class's, cls.py init_dataclass)
+            eff = R.opts if (K is R.T and case.get("entry") == "from" and R.opts is not None) else K.__options__
+            k, r = R.run(lambda: utype.type_transform(d, f.type, options=eff))
+            if not (k == "ok" and deep_equal(r, d) and deep_equal(d, r)):
+                bad.append(f"{K.__name__}.{name}")
+    out["nonconforming_defaults"] = bad
+    k2, second = R.run(lambda: R.top(first))
+    out["second"] = {k2: deep(second) if k2 == "ok" else second}
+    if k2 == "ok":
+        out["second_equal"] = deep_equal(first, second) and deep_equal(second, first)
+    if k2 != "ok" or not out["second_equal"]:
+        try:
+            out["culprit"] = R.locate(case["type"], first, R.opts, top=True)
+        except Exception as e:
+            out["culprit"] = {"kind": "locate-failed", "exc": type(e).__name__}
+    if R.is_dc:
+        plain = _data_of(first)
+        k3, third = R.run(lambda: R.top(plain))
+        out["plain"] = {k3: deep(third) if k3 == "ok" else third}
+        if k3 == "ok":
+            out["plain_equal"] = deep_equal(first, third) and deep_equal(third, first)
+        if (k3 != "ok" or not out["plain_equal"]) and "culprit" not in out:
+            # the instance is a fixed point but its data is not: look for the field whose value does not re-parse
+            try:
+                K = R.T
+                inner = R.opts if (case.get("entry") == "from" and R.opts is not None) else K.__options__
+                desc = case["classes"][case["type"]["dc"]]
+                cul = None
+                missing = [f.attname for f in K.__parser__.fields.values()
+                           if f.field.no_output and f.field.required is True and f.name not in plain and f.attname not in plain]
+                for name, f in K.__parser__.fields.items():
+                    if missing and k3 != "ok":
+                        break
+                    fd = next((x for x in desc["fields"] if x["name"] == f.attname), None)
+                    for key in (f.name, f.attname):
+                        if fd and key in plain:
+                            cul = R.locate(fd["type"], plain[key], inner)
+                            tolerant = (f.field.on_error or getattr(inner, "invalid_values", None)) in ("preserve",)
+                            if cul and tolerant and "ok" not in cul.get("observed", {}):
+                                cul = None
+                            break
+                    if cul:
+                        break
+                out["culprit"] = cul or {"kind": "dc", "node": case["type"], "value": deep(first), "observed": out["plain"],
+                                         "dropped_required_no_output": missing}
+            except Exception as e:
+                out["culprit"] = {"kind": "locate-failed", "exc": type(e).__name__}
+    return out
+
+
+def impl_copy(case):
+    from utype.utils.functional import copy_value
+    v = dec2(case["value"])
+    try:
+        r = copy_value(v)
+    except Exception as e:
+        return {"err": type(e).__name__}
+    fresh = True
+    if isinstance(v, (list, dict, set)) and r is v:
+        fresh = False
+    return {"ok": enc2(r), "equal": deep_equal(v, r) and deep_equal(r, v), "fresh": fresh}
+
+
+# ---- generators for the reparse stream -----------------------------------------------------------------------
+
+LEAF_RULES = [
+    {"origin": "int", "cs": [["gt", 0]]},
+    {"origin": "int", "cs": [["ge", 0], ["le", 10]]},
+    {"origin": "int", "cs": [["multiple_of", 5]]},
+    {"origin": "int", "cs": [["const", 1]]},
+    {"origin": "str", "cs": [["max_length", 3]]},
+    {"origin": "str", "cs": [["regex", "[a-z]+"]]},
+    {"origin": "str", "cs": [["regex", r"\d\.\d"]]},
+    {"origin": "str", "cs": [["enum", ["a", "b"]]]},
+    {"origin": "float", "cs": [["ge", 0.5]]},
+    {"origin": "Decimal", "cs": [["max_digits", 4], ["decimal_places", 2]]},
+    {"origin": "Decimal", "cs": [["decimal_places", 2]]},
+    {"origin": "list", "cs": [["max_length", 3]]},
+    {"origin": "list", "cs": [["unique_items", True]]},
+    {"origin": "tuple", "cs": [["min_length", 1]]},
+]
+LEAF_POOL = {
+    "int": [-3, -1, 0, 1, 2, 3, 5, 7, 10, 11, 15, 100],
+    "str": ["", "a", "b", "ab", "abc", "abcd", "A", "1.5", "3", "12", "x1", "1e0", "true", "-5", "0.50"],
+    "float": [0.0, 0.5, 0.25, 1.0, 1.5, -2.0, 3.0, 10.0, 1e3],
+    "Decimal": [Decimal(x) for x in ["0", "0.5", "1.50", "12.34", "123.456", "99.99", "1000", "-1.5", "7"]],
+    "bool": [True, False],
+    "list": [[], [1], [1, 2], [1, 1], ["a", "b", "c", "d"], [1, "1"], [[1], [2]]],
+    "tuple": [(), (1,), (1, 2), ("a", 1)],
+}
+GARBAGE = ["zz", None, [], {}, 1.5, "1,2", [1, "x"], {"k": 1}, True, "", (1, 2), "null", "[1, 2]", '{"a": 1}']
+OPTION_MENU = [
+    {"no_explicit_cast": True}, {"no_data_loss": True}, {"invalid_items": "exclude"}, {"invalid_items": "preserve"},
+    {"invalid_values": "preserve"}, {"invalid_values": "exclude"}, {"invalid_keys": "exclude"}, {"invalid_keys": "preserve"},
+    {"addition": True}, {"addition": False}, {"ignore_required": True}, {"no_default": True}, {"case_insensitive": True},
+    {"collect_errors": True}, {"ignore_constraints": True}, {"data_first_search": True},
+    {"no_data_loss": True, "no_explicit_cast": True}, {"max_depth": 4}, {"unresolved_types": "ignore"},
+]
+FIELD_NAMES = ["a", "b", "name", "Val", "elems", "x_y", "n", "tags", "lim", "kind"]
+
+
+def leaf_type(rng, hashable=False):
+    k = rng.random()
+    if k < 0.5:
+        return {"b": rng.choice(["int", "int", "str", "str", "float", "bool", "Decimal"])}
+    rules = [r for r in LEAF_RULES if not hashable or r["origin"] not in ("list",)]
+    r = rng.choice(rules)
+    return {"r": {"origin": r["origin"], "cs": [[k_, encode(b)] for k_, b in r["cs"]]}}
+
+
+def gen_type(rng, depth, nclasses=0, hashable=False):
+    if depth <= 0:
+        return leaf_type(rng, hashable)
+    k = rng.random()
+    sub = lambda h=False: gen_type(rng, depth - 1, nclasses, h)      # noqa
+    if hashable:
+        if k < 0.6:
+            return leaf_type(rng, True)
+        if k < 0.8:
+            return {"g": "Tuple", "args": [leaf_type(rng, True), leaf_type(rng, True)]}
+        return {"g": "TupleE", "args": [leaf_type(rng, True)]}
+    if k < 0.2:
+        return leaf_type(rng)
+    if k < 0.32:
+        return {"g": "List", "args": [sub()]}
+    if k < 0.38:
+        return {"g": rng.choice(["Set", "Set", "FrozenSet"]), "args": [sub(True)]}
+    if k < 0.45:
+        return {"g": "TupleE", "args": [sub()]}
+    if k < 0.54:
+        return {"g": "Tuple", "args": [sub() for _ in range(rng.choice([1, 2, 2, 3]))]}
+    if k < 0.62:
+        return {"g": "Dict", "args": [rng.choice([{"b": "str"}, {"b": "str"}, {"b": "int"}, leaf_type(rng, True)]), sub()]}
+    if k < 0.7:
+        return {"g": "Optional", "args": [sub()]}
+    if k < 0.77:
+        return {"g": "Union", "args": [sub(), sub()] + ([sub()] if rng.random() < 0.25 else [])}
+    if k < 0.85:
+        return {"c": "|", "args": [sub(), sub()] + ([sub()] if rng.random() < 0.25 else []), "via": rng.choice(["op", "op", "call"])}
+    if k < 0.9:
+        return {"c": "^", "args": [sub(), sub()], "via": rng.choice(["op", "op", "call"])}
+    if k < 0.94:
+        return {"c": "&", "args": [sub(), sub()], "via": rng.choice(["op", "op", "call"])}
+    if k < 0.96:
+        return {"c": "~", "args": [sub()], "via": rng.choice(["op", "call"])}
+    if nclasses:
+        return {"dc": rng.randrange(nclasses)}
+    return leaf_type(rng)
+
+
+def rule_value(rng, r, exact):
+    pool = LEAF_POOL.get(r["origin"], [0])
+    cs = [(k, decode(b)) for k, b in r["cs"]]
+    good = []
+    for x in pool:
+        try:
+            if c02.accept_cs(cs, x):
+                good.append(x)
+        except Exception:
+            pass
+    if good and (exact or rng.random() < 0.8):
+        return rng.choice(good)
+    return rng.choice(pool)
+
+
+def gen_value(rng, t, classes, exact, depth=0):
+    """exact: an instance of the type (a conforming default); otherwise an input that mostly converts"""
+    if not exact and rng.random() < 0.04:
+        return rng.choice(GARBAGE)
+    if "b" in t:
+        b = t["b"]
+        if b == "Any":
+            return rng.choice([1, "a", [1], None])
+        if b == "NoneType":
+            return None
+        if b == "dict":
+            return {"k": 1}
+        v = rng.choice(LEAF_POOL[b])
+        if exact or rng.random() < 0.55:
+            return v
+        if b == "int":
+            return rng.choice([str(v), float(v), Decimal(v), v, bool(v % 2), str(v) + ".0"])
+        if b == "float":
+            return rng.choice([str(v), int(v), Decimal(str(v)), v])
+        if b == "str":
+            return rng.choice([v, 3, 1.5, True, Decimal("1.50"), None])
+        if b == "bool":
+            return rng.choice(["true", "false", 0, 1, "1", "0", "yes", v])
+        if b == "Decimal":
+            return rng.choice([str(v), float(v), int(v), v])
+        return v
+    if "r" in t:
+        v = rule_value(rng, t["r"], exact)
+        if exact or rng.random() < 0.6:
+            return v
+        o = t["r"]["origin"]
+        if o in ("int", "float", "Decimal"):
+            return rng.choice([str(v), float(v) if o != "float" else int(v), v])
+        if o == "str":
+            return rng.choice([v, 3, 1.5])
+        if o == "list":
+            return rng.choice([tuple(v), v, ",".join(map(str, v))])
+        if o == "tuple":
+            return rng.choice([list(v), v])
+        return v
+    if "dc" in t:
+        return gen_dc_input(rng, classes[t["dc"]], classes, depth + 1)
+    if "g" in t:
+        g, a = t["g"], t["args"]
+        sub = lambda x: gen_value(rng, x, classes, exact, depth + 1)      # noqa
+        n = rng.choice([0, 1, 2, 2, 3]) if depth < 3 else rng.choice([0, 1])
+        if g in ("List", "Set", "FrozenSet", "TupleE"):
+            items = [sub(a[0]) for _ in range(n)]
+            want = {"List": list, "Set": set, "FrozenSet": frozenset, "TupleE": tuple}[g]
+            if not exact and rng.random() < 0.35:
+                want = rng.choice([list, tuple])
+            try:
+                return want(items)
+            except TypeError:
+                return list(items)
+        if g == "Tuple":
+            items = [sub(x) for x in a]
+            if not exact and rng.random() < 0.1:
+                items = items[:-1] if rng.random() < 0.5 else items + [1]
+            return tuple(items) if exact or rng.random() < 0.6 else list(items)
+        if g == "Dict":
+            out = {}
+            for _ in range(n):
+                try:
+                    out[gen_value(rng, a[0], classes, exact, depth + 1)] = sub(a[1])
+                except TypeError:
+                    pass
+            return out
+        if g == "Optional":
+            return None if rng.random() < 0.3 else sub(a[0])
+        if g == "Union":
+            return sub(rng.choice(a) if not exact else a[0])
+    if "c" in t:
+        a = t["args"]
+        if t["c"] in ("|", "^"):
+            return gen_value(rng, rng.choice(a) if not exact else a[0], classes, exact, depth + 1)
+        if t["c"] == "&":
+            return gen_value(rng, a[0], classes, exact, depth + 1)
+        return rng.choice([1, "a", 2.5, [1], None, "abc", -1, {"k": 1}]) if rng.random() < 0.6 else gen_value(rng, a[0], classes, exact, depth + 1)
+    return None
+
+
+def factory_for(rng, t):
+    if "g" in t:
+        g = t["g"]
+        if g == "List":
+            a = t["args"][0]
+            if a.get("g") == "Tuple" and len(a["args"]) == 2 and a["args"][0] == {"b": "str"} and a["args"][1] == {"b": "int"}:
+                return "nested"
+            return "list"
+        if g == "Dict":
+            return "dict"
+        if g == "Set":
+            return "set"
+        if g == "FrozenSet":
+            return "frozenset"
+        if g == "TupleE":
+            return "tuple"
+        if g == "Tuple" and t["args"] == [{"b": "int"}, {"b": "int"}]:
+            return "pair"
+    if t == {"b": "list"}:
+        return "list"
+    return None
+
+
+SPECIAL_FIELD_TYPES = [
+    {"g": "Tuple", "args": [{"b": "int"}, {"b": "int"}]},
+    {"g": "TupleE", "args": [{"b": "str"}]},
+    {"g": "List", "args": [{"g": "Tuple", "args": [{"b": "str"}, {"b": "int"}]}]},
+    {"g": "Dict", "args": [{"b": "str"}, {"g": "TupleE", "args": [{"b": "int"}]}]},
+    {"g": "Dict", "args": [{"b": "str"}, {"g": "Dict", "args": [{"b": "str"}, {"g": "Tuple", "args": [{"b": "int"}, {"b": "str"}]}]}]},
+    {"g": "Set", "args": [{"b": "int"}]},
+    {"g": "FrozenSet", "args": [{"b": "str"}]},
+    {"g": "Set", "args": [{"g": "Tuple", "args": [{"b": "int"}, {"b": "int"}]}]},
+    {"g": "Tuple", "args": [{"g": "TupleE", "args": [{"b": "int"}]}, {"g": "Set", "args": [{"b": "str"}]}]},
+    {"g": "List", "args": [{"g": "Set", "args": [{"b": "int"}]}]},
+    {"g": "Optional", "args": [{"g": "Tuple", "args": [{"b": "int"}, {"b": "int"}]}]},
+    {"g": "List", "args": [{"g": "List", "args": [{"b": "int"}]}]},
+]
+
+
+def gen_class(rng, idx, classes):
+    kind = rng.choice(["Schema", "Schema", "DataClass"])
+    names = rng.sample(FIELD_NAMES, rng.randint(1, 5))
+    fields = []
+    for nm in names:
+        k = rng.random()
+        if k < 0.3:
+            t = rng.choice(SPECIAL_FIELD_TYPES)
+        else:
+            t = gen_type(rng, rng.choice([0, 1, 1, 2]), idx)
+        f = {"name": nm, "type": t}
+        k = rng.random()
+        if k < 0.3:
+            pass                                                   # required
+        elif k < 0.65:
+            f["default"] = enc2(gen_value(rng, t, classes, True))
+            if rng.random() < 0.5:
+                f["as_field"] = True
+        elif k < 0.85:
+            fac = factory_for(rng, t)
+            if fac:
+                f["factory"] = fac
+            else:
+                f["default"] = enc2(gen_value(rng, t, classes, True))
+                f["as_field"] = True
+        else:
+            f["required"] = False
+        k = rng.random()
+        if k < 0.15:
+            f["alias"] = "Al" + nm
+        elif k < 0.22:
+            f["alias_from"] = ["from_" + nm, nm.upper()]
+        if rng.random() < 0.08:
+            f["no_output"] = True
+        if rng.random() < 0.05:
+            f["case_insensitive"] = True
+        if rng.random() < 0.06:
+            f["on_error"] = rng.choice(["exclude", "preserve"])
+            if f["on_error"] == "exclude" and "default" not in f and not f.get("factory"):
+                f["required"] = False
+        fields.append(f)
+    out = {"kind": kind, "name": f"K{idx}", "fields": fields}
+    if rng.random() < 0.3:
+        out["options"] = dict(rng.choice([{"addition": True}, {"addition": False}, {"case_insensitive": True}, {"ignore_required": True},
+                                          {"no_default": True}, {"collect_errors": True}, {"invalid_values": "preserve"},
+                                          {"invalid_values": "exclude"}, {"data_first_search": True}, {"no_explicit_cast": True},
+                                          {"no_data_loss": True}]))
+    return out
+
+
+def gen_dc_input(rng, k, classes, depth=0):
+    data = {}
+    for f in k["fields"]:
+        optional = "default" in f or f.get("factory") or f.get("required") is False
+        if rng.random() < (0.45 if optional else 0.04):
+            continue
+        key = f["name"]
+        if f.get("alias") and rng.random() < 0.7:
+            key = f["alias"]
+        elif f.get("alias_from") and rng.random() < 0.5:
+            key = rng.choice(f["alias_from"])
+        elif rng.random() < 0.06:
+            key = key.upper() if key != key.upper() else key.lower()
+        data[key] = gen_value(rng, f["type"], classes, False, depth + 1)
+    if rng.random() < 0.12:
+        data[rng.choice(["extra", "zz", "Extra_1"])] = rng.choice([1, "x", [1], None])
+    return data
+
+
+def gen_reparse_case(rng):
+    classes = []
+    for i in range(rng.choice([0, 1, 1, 1, 2, 2, 3])):
+        classes.append(gen_class(rng, i, classes))
+    if classes and rng.random() < 0.7:
+        t = {"dc": len(classes) - 1}
+    else:
+        t = gen_type(rng, rng.choice([1, 2, 2, 3]), len(classes))
+    case = {"op": "reparse", "classes": classes, "type": t,
+            "options": dict(rng.choice(OPTION_MENU)) if rng.random() < 0.45 else None,
+            "entry": rng.choice(["from", "transform"]),
+            "input": enc2(gen_value(rng, t, classes, False))}
+    return case
+
+
+def gen_copy_case(rng):
+    t = rng.choice(SPECIAL_FIELD_TYPES) if rng.random() < 0.6 else gen_type(rng, rng.choice([1, 2, 3]), 0)
+    v = gen_value(rng, t, [], True)
+    k = rng.random()
+    if k < 0.06 and isinstance(v, dict):
+        v = rng.choice([v.values(), v.keys()])
+    elif k < 0.1:
+        v = [{"a": (1, [2, {3}])}, ({"b": frozenset({1})},)]
+    return {"op": "copy", "value": enc2(v)}
+
+
+# ------------------------------------------------------------------------------------------------
+# the DOCUMENTED semantics of a constrained type's validator phase (docs/en/references/rule.md), frozen here:
+# constraints run in the documented order; a strict one checks (c02.sat), a Lax one transforms as documented.  The known
+# findings of the "rule" stream are classified against this reference, never against the model regenerated from the
+# (possibly changed) source: a finding is "known" only if the real code did exactly what the documented order does.
+# ------------------------------------------------------------------------------------------------
+
+DOC_ORDER = ["gt", "ge", "lt", "le", "const", "enum", "regex", "decimal_places", "multiple_of", "max_digits", "length",
+             "max_length", "min_length", "unique_items"]
+
+
+class DocFail(Exception):
+    pass
+
+
+def doc_lax(name, v, b):
+    """documented transformation of a Lax constraint ("Lax constraints", rule.md)"""
+    if name == "ge":
+        return b if v < b else v
+    if name == "le":
+        return b if v > b else v
+    if name in ("max_length", "length"):
+        s_ = v if hasattr(v, "__len__") else str(v)
+        if len(s_) > b:
+            if not hasattr(v, "__len__"):
+                raise DocFail
+            return v[:b]
+        if name == "length" and len(s_) < b:
+            raise DocFail
+        return v
+    if name == "decimal_places":
+        return round(v, b)
+    if name == "max_digits":
+        digits, decimals = digit_counts(v)
+        if digits <= b:
+            return v
+        delta = digits - b
+        if decimals >= delta:
+            return round(v, decimals - delta)
+        raise DocFail
+    if name == "multiple_of":
+        return v if not (v % b) else (v // b) * b
+    if name == "const":
+        return b
+    if name == "enum":
+        return v if v in b else list(b)[0]
+    if name == "unique_items":
+        if not b:
+            return v
+        out = []
+        for x in v:
+            if not any(x == y for y in out):
+                out.append(x)
+        return type(v)(out)
+    raise DocFail
+
+
+def doc_parse(case, v):
+    """-> ("ok", result) | ("fail", None): the validator phase in the documented order and sense"""
+    lax = set(case.get("lax", []))
+    cs = [(n, decode(b)) for n, b in case["constraints"]]
+    names = [n for n, _ in cs]
+    if "const" in names:
+        cs = [c for c in cs if c[0] == "const"]
+    elif "enum" in names:
+        cs = [c for c in cs if c[0] == "enum"]
+        cs = [(n, list(b) if isinstance(b, (tuple, set, frozenset)) else b) for n, b in cs]
+    run = v
+    try:
+        for n, b in sorted(cs, key=lambda c: DOC_ORDER.index(c[0])):
+            if b is None and n != "const":
+                continue
+            if n == "unique_items" and not b:
+                continue
+            if n in lax:
+                run = doc_lax(n, run, b)
+            else:
+                if not sat(n, run, b):
+                    return ("fail", None)
+                if n == "const":
+                    run = b
+                if n == "decimal_places" and isinstance(run, Decimal):
+                    run = run.quantize(Decimal(1).scaleb(-b))
+    except Undefined:
+        return ("undefined", None)
+    except Exception:
+        return ("fail", None)
+    return ("ok", run)
+
+
+def behaves_as_documented(case, io) -> bool:
+    """did the real code, on this case, do exactly what the documented order and sense prescribe — for the first parse
+    and for the re-parse of its result?"""
+    try:
+        v = decode(case["value"])
+        k1, r1 = doc_parse(case, v)
+        p = io.get("parse", {})
+        if k1 != "ok" or "ok" not in p or not same(r1, decode(p["ok"])):
+            return False
+        origin = c02.CLS_BY_NAME.get(case.get("origin"))
+        if origin is not None and not isinstance(r1, origin):
+            return True      # the re-parse of a value of another type starts with the origin conversion (not this phase)
+        k2, r2 = doc_parse(case, r1)
+        rp = io.get("reparse", {})
+        if k2 == "fail":
+            return "perr" in rp
+        if k2 == "ok":
+            return "ok" in rp and same(r2, decode(rp["ok"]))
+        return False
+    except Exception:
+        return False
 
 
 def exact_domain(v) -> bool:
@@ -56,14 +906,68 @@ def same(a, b) -> bool:
 
 class C03(C02):
     prop = "C03"
-    props_modules = ["Utv.Props.C03"]
+    props_modules = ["Utv.Props.C03", "Utv.Lemmas.C03Copy"]
     impl = "harness.c03:impl"
     lax_mode = True
+    decl_share = 0.0
     validator_names = LAX_NAMES + ["ge", "le", "length", "unique_items"]
     rule = ("(a) every lax validator on (value, bound) pairs at and around the bounds, applied twice and followed by its strict form; "
             "(b) declared types with 1-2 Lax(...) constraints (plus strict ones) applied to values of the source type and re-parsed; "
-            "(c) operator audit.  non-trivial = the lax validator changed its input, or the value is within 1 of a bound, or the "
-            "declaration has >= 2 constraints; distinct by (constraints, value)")
+            "(c) operator audit; (d) pairs/triples of Lax constraints on numbers with bounds that disturb each other; "
+            "(e) whole-type re-parse on the real code: logical combinations (| ^ & ~), nested generics, Schema/DataClass with defaults of "
+            "every container kind, factories, aliases, no_output, nested classes, 20 option sets, result re-parsed as instance and as plain "
+            "data and compared incl. container classes; (f) copy_value on nested data vs the T1 model.  non-trivial = the lax validator "
+            "changed its input, or the value is within 1 of a bound, or the declaration has >= 2 constraints, or a re-parse case whose first "
+            "parse succeeded, or a copy case with a nested container; distinct by (declaration/type, options, value)")
+
+    reparse_share = 0.3
+    copy_share = 0.04
+
+    def cases(self, tier, rng, n):
+        out = []
+        n_re = int(n * self.reparse_share)
+        n_cp = int(n * self.copy_share)
+        out += super().cases(tier, rng, n - n_re - n_cp)
+        out += [gen_reparse_case(rng) for _ in range(n_re)]
+        out += [gen_copy_case(rng) for _ in range(n_cp)]
+        return out
+
+    def run(self, tier, seed):
+        # audit the axioms module by module, so that a module that no longer builds (e.g. the obligations about
+        # utils/functional.py) does not take the theorems of the other module down with it in the report
+        from . import common
+        orig = common.print_axioms
+
+        def per_module(mods, names):
+            res = {}
+            prefix = self.theorem_prefix or (self.prop + "_")
+            for m in mods:
+                mine = [n for n in names if n in set(common.theorem_names(m, prefix))]
+                if mine:
+                    res.update(orig([m], mine))
+            for n in names:
+                res.setdefault(n, None)
+            return res
+        common.print_axioms = per_module
+        try:
+            return super().run(tier, seed)
+        finally:
+            common.print_axioms = orig
+
+    def sweep(self, cases, impl_outs, model_outs, findings):
+        disagreements, unknown, known = super().sweep(cases, impl_outs, model_outs, findings)
+        # a failing input of the property itself (a parse whose result does not re-parse) is reported in preference to
+        # one of the helper `copy_value` called directly
+        if any(u["case"].get("op") != "copy" for u in unknown):
+            unknown = [u for u in unknown if u["case"].get("op") != "copy"]
+        return disagreements, unknown, known
+
+    def model_line(self, case):
+        if case["op"] == "reparse":
+            return {"op": "skip"}
+        if case["op"] == "copy":
+            return {"op": "copy", "value": case["value"]}
+        return super().model_line(case)
 
     def evaluate(self, cases):
         """C02's evaluation, plus: the model is also run on the *result* of every accepted declared-type parse (the re-parse),
@@ -87,6 +991,18 @@ class C03(C02):
         return impl_outs, model_outs
 
     def compare(self, case, io, mo):
+        if case["op"] == "reparse":
+            return None
+        if case["op"] == "copy":
+            if not isinstance(mo, dict) or "driver-error" in mo:
+                return f"driver: {mo}"
+            if "unmodelled" in mo:
+                return None
+            if ("ok" in io) != ("ok" in mo):
+                return f"copy_value verdict differs: impl {io} model {mo}"
+            if "ok" in io and json.dumps(canon2(io["ok"]), sort_keys=True) != json.dumps(canon2(mo["ok"]), sort_keys=True):
+                return f"copy_value result differs: impl {io['ok']} model {mo['ok']}"
+            return None
         d = super().compare(case, io, mo)
         if d:
             return d
@@ -102,6 +1018,36 @@ class C03(C02):
 
     def spec(self, case, io, mo):
         op = case["op"]
+        if op == "copy":
+            if "ok" not in io:
+                v = dec2(case["value"])
+                if isinstance(v, (type({}.values()), type({}.keys()))):
+                    return None       # dict views cannot be rebuilt from their own class: copy_value raises (not reachable from a default)
+                return f"copy_value({v!r}) raised {io.get('err')}"
+            if not io.get("equal"):
+                return f"copy_value({dec2(case['value'])!r}) = {dec2(io['ok'])!r}: not equal to its argument with the same container classes"
+            if not io.get("fresh"):
+                return f"copy_value({dec2(case['value'])!r}) returned the same mutable object"
+            return None
+        if op == "reparse":
+            if io.get("decl") != "ok" or "ok" not in io.get("first", {}):
+                return None
+            if io.get("nonconforming_defaults"):
+                return None           # precondition on the declaration: a default must be a value of its field's type
+            what = self._reparse_text(case)
+            for key, eq in (("second", "second_equal"), ("plain", "plain_equal")):
+                if key not in io:
+                    continue
+                r = io[key]
+                if "escape" in r:
+                    continue          # C04's business
+                how = "the result" if key == "second" else "the plain data of the result"
+                if "ok" not in r:
+                    return f"{what}: parse succeeded with {json.dumps(io['first']['ok'])[:300]} but re-parsing {how} fails with {r.get('perr')}"
+                if not io.get(eq):
+                    return (f"{what}: parse gave {json.dumps(io['first']['ok'])[:300]} but re-parsing {how} gives "
+                            f"{json.dumps(r['ok'])[:300]} (not equal / another container class)")
+            return None
         if op == "validator":
             name = case["name"]
             if not name.startswith("lax_") or "ok" not in io:
@@ -113,7 +1059,10 @@ class C03(C02):
             r2 = decode(again["ok"])
             if not same(r, r2):
                 return f"{name}({v!r}, {b!r}) = {r!r} is not a fixed point: second application gives {r2!r}"
-            if exact_domain(v) and exact_domain(r) and (exact_domain(b) or isinstance(b, (list, tuple, set))):
+            # (de-duplication is about `==` between the items, whatever they are: the strict form is checked on every
+            # sequence; the numeric constraints only on the exact domains)
+            if (name == "lax_unique_items" and isinstance(r, (list, tuple))) or \
+                    (exact_domain(v) and exact_domain(r) and (exact_domain(b) or isinstance(b, (list, tuple, set)))):
                 base = name[4:]
                 try:
                     holds = sat(base, r, b)
@@ -144,7 +1093,46 @@ class C03(C02):
             return None
         return None
 
+    @staticmethod
+    def _reparse_text(case):
+        def pt(t):
+            if "b" in t:
+                return t["b"]
+            if "r" in t:
+                return f"Rule[{t['r']['origin']}]({', '.join(k + '=' + repr(decode(b)) for k, b in t['r']['cs'])})"
+            if "dc" in t:
+                return case["classes"][t["dc"]]["name"]
+            if "g" in t:
+                return f"{t['g']}[{', '.join(pt(a) for a in t['args'])}]"
+            if t["c"] == "~":
+                return f"~{pt(t['args'][0])}"
+            return "(" + f" {t['c']} ".join(pt(a) for a in t["args"]) + ")"
+        parts = []
+        for k in case.get("classes", []):
+            fs = []
+            for f in k["fields"]:
+                extra = {x: (dec2(f[x]) if x == "default" else f[x]) for x in f if x not in ("name", "type", "as_field")}
+                fs.append(f"{f['name']}: {pt(f['type'])}" + (f" {extra}" if extra else ""))
+            parts.append(f"class {k['name']}({k['kind']}{', options=' + str(k['options']) if k.get('options') else ''}): " + "; ".join(fs))
+        parts.append(f"type {pt(case['type'])}, options {case.get('options')}, input {dec2(case['input'])!r}")
+        return " | ".join(parts)
+
     def classify(self, case, io, why):
+        if case["op"] == "reparse":
+            cu = io.get("culprit") or {}
+            if cu.get("kind") == "dc" and cu.get("dropped_required_no_output"):
+                return "no-output-required-dropped"
+            if cu.get("kind") == "comb" and cu.get("keepers") and cu.get("algorithm_agrees"):
+                return {"|": "union-winner-differs", "&": "allof-threading", "^": "xor-result-reaccepted"}.get(cu.get("op"))
+            return None
+        if case["op"] == "copy":
+            return None
+        documented = case["op"] != "rule" or behaves_as_documented(case, io)
+        # (for declared types every known finding below is "known" only when the real code did exactly what the DOCUMENTED
+        # order and sense prescribe, first parse and re-parse: the defect then lies in the documented design; a
+        # deviation from the documented order — whatever the regenerated model says — is never a known finding)
+        if not documented:
+            return None
         # known finding lax-max-digits-carry: Lax(max_digits) rounding carries into a new digit
         lax_md = (case["op"] == "validator" and case["name"] == "lax_max_digits") or \
                  (case["op"] == "rule" and "max_digits" in case.get("lax", []))
@@ -170,27 +1158,21 @@ class C03(C02):
                        (list(cs["enum"]) if "enum" in cs and "enum" in case["lax"] and isinstance(cs["enum"], (list, tuple, set)) else [])
             if origin is not None and not isinstance(r, origin) and any(type(r) is type(d) and same(r, d) for d in declared):
                 return "lax-const-not-origin"
-        # known finding lax-result-not-revalidated: the value a Lax constraint produced violates another declared constraint
+        # known finding lax-result-not-revalidated: the value a Lax constraint produced violates another declared
+        # constraint (a later Lax constraint moved the value after an earlier constraint was checked, documented order)
         if case["op"] == "rule" and case.get("lax") and len(case["constraints"]) >= 2 and "ok" in io.get("parse", {}):
             r = decode(io["parse"]["ok"])
-            cs = self._cs(case)
-            # (a) in the sequential, documented sense (Decimal padded by decimal_places before max_digits counts, etc.):
-            # the model of the unchanged validators, run on the result, predicts exactly the re-parse the real code showed
-            rm, rp = io.get("reparse_model"), io.get("reparse", {})
-            if isinstance(rm, dict) and not same(r, decode(case["value"])):
-                if ("err" in rm and "perr" in rp) or ("ok" in rm and "ok" in rp and c02.canon(rm["ok"]) == c02.canon(rp["ok"])):
-                    return "lax-result-not-revalidated"
-            for n, b in cs.items():
-                try:
-                    if b is not None and not sat(n, r, b):
-                        return "lax-result-not-revalidated"
-                except Undefined:
-                    continue
-                except Exception:
-                    continue
+            if not same(r, decode(case["value"])):
+                return "lax-result-not-revalidated"
         return None
 
     def key(self, case, io):
+        if case["op"] == "reparse":
+            if io.get("decl") != "ok" or "ok" not in io.get("first", {}):
+                return None
+            return json.dumps([case["classes"], case["type"], case["options"], case["input"]], sort_keys=True)
+        if case["op"] == "copy":
+            return json.dumps(case["value"], sort_keys=True) if '"l"' in json.dumps(case["value"]) or '"t"' in json.dumps(case["value"]) or '"m"' in json.dumps(case["value"]) else None
         try:
             if case["op"] == "validator" and case["name"].startswith("lax_") and "ok" in io:
                 if json.dumps(io["ok"], sort_keys=True) != json.dumps(case["value"], sort_keys=True):
@@ -198,6 +1180,52 @@ class C03(C02):
         except Exception:
             pass
         return super().key(case, io)
+
+
+    def distribution(self, case, io):
+        if case["op"] == "copy":
+            return f"copy/{'ok' if 'ok' in io else io.get('err')}"
+        if case["op"] == "reparse":
+            t = case["type"]
+            shape = "dc:" + case["classes"][t["dc"]]["kind"] if "dc" in t else ("comb:" + t["c"] if "c" in t else "gen:" + t["g"] if "g" in t else "leaf")
+            if io.get("decl") != "ok":
+                return f"reparse/{shape}/decl-{io.get('decl')}"
+            f = io["first"]
+            if "ok" not in f:
+                return f"reparse/{shape}/first-{list(f)[0]}"
+            o = "opts" if case.get("options") else "noopts"
+            return f"reparse/{shape}/{o}/{'nonconforming-default' if io.get('nonconforming_defaults') else 'reparsed'}"
+        return super().distribution(case, io)
+
+    def neighbours(self, case, rng):
+        if case["op"] == "reparse":
+            out = []
+            # the same declaration with other inputs (fields omitted so that defaults are used) and other options
+            for _ in range(8):
+                t = case["type"]
+                out.append(dict(case, input=enc2(gen_value(rng, t, case["classes"], False))))
+            out.append(dict(case, input=enc2({})))
+            for o in OPTION_MENU[:6]:
+                out.append(dict(case, options=dict(o)))
+            return out
+        if case["op"] == "copy":
+            return [gen_copy_case(rng) for _ in range(10)]
+        return super().neighbours(case, rng)
+
+
+def canon2(j):
+    """order-insensitive form of an enc2 value (sets sorted; dict order kept)"""
+    if isinstance(j, dict):
+        if "m" in j:
+            return {"m": [[canon2(k), canon2(v)] for k, v in j["m"]]}
+        for k in ("S", "F"):
+            if k in j:
+                return {k: sorted((canon2(x) for x in j[k]), key=lambda x: json.dumps(x, sort_keys=True))}
+        for k in ("l", "t", "V", "K"):
+            if k in j:
+                return {k: [canon2(x) for x in j[k]]}
+        return {k: v for k, v in j.items() if k != "repr"}
+    return j
 
 
 CHECK = C03()
